@@ -293,6 +293,17 @@ def check(case, ctx):
         raise Violation("metric was interpolated without a warning", req=req, registry=summary(case), apos=apos)
     if needs_interp:
         classes.append("interpolated")
+    # the public interp_like moves a registered variable to the array's position (nearest-value extension requested)
+    reg0 = {frozenset(r["axes"]): r for r in case["registry"]}
+    if frozenset(req) in reg0:
+        e0 = reg0[frozenset(req)]["vars"][0]
+        want_arr, moved = interp_to(e0, reg0[frozenset(req)]["axes"], apos, by)
+        il = must_return("Grid.interp_like", grid.interp_like, ds[e0["name"]], da_full, "extend", None)
+        want_dims = [gen.dim_name(a, apos[a]) for a in on_axes(e0, reg0[frozenset(req)]["axes"])]
+        if set(il.dims) != set(want_dims) or not np.allclose(np.asarray(il.transpose(*want_dims).values), want_arr, rtol=1e-12, atol=0):
+            raise Violation("interp_like does not move the array to the position of `like` (with the requested extension)", variable=e0["name"],
+                            got_dims=list(il.dims), expected_dims=want_dims)
+        classes.append("interp_like")
 
     # ---- derived operations, using the metric actually returned (already shown acceptable)
     m = got
